@@ -102,8 +102,58 @@ Fixpoint returns_self (k : sk) : bool :=
   | IfTree _ a b | IfCache _ a b | IfHasCache a b => returns_self a && returns_self b
   end.
 
+(* ------------------------------------------------------------------ cache freshness *)
+(* A cached shape list refers to elements of the tree; a tree mutation while the cache is held makes
+   it potentially STALE: flushing, editing or keeping it afterwards writes to / returns dead
+   elements.  Ghost semantics: the run also tracks `stale` and whether a stale cache was ever used. *)
+Section Ghost.
+  Variables tree cache : Type.
+  Variable populate : tree -> cache.
+  Variable flush : tree -> cache -> tree.
+  Variable edit : nat -> cache -> cache.
+  Variable mut : nat -> tree -> tree.
+  Variable cond_tree : nat -> tree -> bool.
+  Variable cond_cache : nat -> cache -> bool.
+
+  Definition has_cache (s : state tree cache) : bool := match snd s with Some _ => true | None => false end.
+
+  (* returns (final state, stale at exit, a stale cache was used) *)
+  Fixpoint run_g (k : sk) (s : state tree cache) (stale used : bool) : state tree cache * bool * bool :=
+    match k with
+    | Done _ => (s, has_cache s && stale, used)
+    | Flush k' => run_g k' (match s with (t, Some c) => (flush t c, None) | _ => s end) false (used || (has_cache s && stale))
+    | Populate k' => run_g k' (match s with (t, None) => (t, Some (populate t)) | _ => s end)
+                           (has_cache s && stale) (used || (has_cache s && stale))
+    | Edit n k' => run_g k' (match s with (t, Some c) => (t, Some (edit n c)) | _ => s end) (has_cache s && stale) (used || (has_cache s && stale))
+    | Mut n k' => run_g k' (mut n (fst s), snd s) (stale || has_cache s) used
+    | Invalidate k' => run_g k' (fst s, None) false used
+    | IfTree n k1 k2 => if cond_tree n (fst s) then run_g k1 s stale used else run_g k2 s stale used
+    | IfCache n k1 k2 => match snd s with
+                         | Some c => if cond_cache n c then run_g k1 s stale (used || stale) else run_g k2 s stale (used || stale)
+                         | None => run_g k2 s stale used
+                         end
+    | IfHasCache k1 k2 => match snd s with Some _ => run_g k1 s stale used | None => run_g k2 s stale used end
+    end.
+End Ghost.
+
+(* the analysis tracks exactly whether a cache is present (its evolution is deterministic) and
+   whether it may be stale; it is run from both possible entry situations *)
+Fixpoint wf_fresh (present stale : bool) (k : sk) : bool :=
+  match k with
+  | Done _ => negb (present && stale)
+  | Flush k' => negb (present && stale) && wf_fresh false false k'
+  | Populate k' => negb (present && stale) && wf_fresh true false k'
+  | Edit _ k' => negb (present && stale) && wf_fresh present (present && stale) k'
+  | Mut _ k' => wf_fresh present (stale || present) k'
+  | Invalidate k' => wf_fresh false false k'
+  | IfTree _ a b => wf_fresh present stale a && wf_fresh present stale b
+  | IfCache _ a b => if present then negb stale && wf_fresh present stale a && wf_fresh present stale b
+                     else wf_fresh present stale b
+  | IfHasCache a b => if present then wf_fresh true stale a else wf_fresh false stale b
+  end.
+
 Definition method_ok (m : method) : bool :=
-  wf Init (m_body m) &&
+  wf Init (m_body m) && wf_fresh true false (m_body m) && wf_fresh false false (m_body m) &&
   match m_kind m with
   | Mutator => (negb (m_has_inplace m) || (m_prologue_ok m && returns_self (m_body m)))
   | Query => true
